@@ -44,7 +44,7 @@ func codecGrid(c *Ctx) {
 		bu := new(big.Int).SetUint64(u)
 		if bs := k.AppendUint(u); uint64(len(bs)) != k.UintLen(u) {
 			bad("uintLen", u, fmt.Sprintf("len %d but appended %d bytes", k.UintLen(u), len(bs)))
-		} else if refbin.PUInt(bs).Cmp(bu) != 0 || (len(bs) > 1 && bs[0] == 0) {
+		} else if refbin.PUInt(bs).Cmp(bu) != 0 { // (leading zero bytes are legal in a UInt field)
 			bad("appendUint", u, fmt.Sprintf("bytes %x", bs))
 		}
 		if bs := k.AppendVarUint(u); uint64(len(bs)) != k.VarUintLen(u) {
